@@ -311,6 +311,7 @@ type RunResult struct {
 	Sat        int
 	Unsat      int
 	UnknownQ   int
+	Fallbacks  int // unknown answers of the incremental solver settled by the fallback solver
 	SolverErr  int
 	SolverTime time.Duration
 	Wall       time.Duration
@@ -376,6 +377,7 @@ func (m *Machine) Explore(pkgPath, entry string) (*RunResult, error) {
 				rr.Sat += s.Sat
 				rr.Unsat += s.Unsat
 				rr.UnknownQ += s.Unknown
+				rr.Fallbacks += s.Fallbacks
 				rr.SolverErr += s.Errors
 				rr.SolverTime += s.Time
 				mu.Unlock()
